@@ -221,6 +221,9 @@ func parseInto(result *Version, input string) error {
 
 	colon := strings.Index(trimmed, ":")
 	if colon != -1 {
+		if strings.IndexFunc(trimmed[:colon], func(c rune) bool { return c < '0' || c > '9' }) != -1 {
+			return fmt.Errorf("epoch is not an unsigned number")
+		}
 		epoch, err := strconv.ParseInt(trimmed[:colon], 10, strconv.IntSize)
 		if err != nil {
 			return fmt.Errorf("epoch: %v", err)
